@@ -60,6 +60,14 @@ CLAIMS = {
           "(R4) clean_storage decides on a reloaded session. Does NOT decide histories as such."),
     note="Trusted: SQLite WAL snapshot starts at the session's first statement; a new session sees all earlier commits; sequential histories.",
     technique="session-freshness typestate on ICFGs (with emptiness facts for the retry set)", ref="5/C08"),
+ 'C14': dict(
+    text=("Decides structural clauses of import_objects: (R1) every Iterable-annotated parameter of the package is consumed at most once per path before being materialised (linear typestate; covers one-shot generators); "
+          "(R2) compress/do_fsync forwarded unchanged and do_commit=False at the three add call sites, exactly one commit that every normal path passes, after the last add; "
+          "(R3) same hash algorithm: only Location.LEFTONLY keys of the sorted merge are transferred; different algorithms: constant propagation shows no_holes=True and no_holes_read_twice=True at every add call; "
+          "(R4) the old/new key lists of the returned mapping grow in lockstep (paired append / extension from one zip(*cache.items()) whose contents are what is added), the cache is reset with every in-loop flush and flushed after the loop. "
+          "Does NOT decide byte identity of transferred objects."),
+    note="Assumes add_objects_to_pack returns keys in input order (C01/C09 rules) and dict insertion order.",
+    technique="linear typestate + constant propagation on ICFGs + def-use matching", ref="5/C14"),
 }
 
 PENDING_REASON = "check not built yet in this session (work in progress; DESIGN.md section 5 describes the planned static rules)"
